@@ -531,7 +531,6 @@ func lastField(term string) string {
 	return ""
 }
 
-
 var upsertBodyCache = map[*dstate]map[*ssa.Function]bool{}
 
 // upsertBodies: the functions that run as part of a trie update callback (the function value handed to Tree.Upsert):
